@@ -9,17 +9,22 @@ from .. import canon, gen
 from ..core import call_real
 
 ID = "C03"
-LEAN_MODULE = "CKT.Props.C03"
+LEAN_MODULE = "CKT.Props.C03Sem"
 THEOREMS = [
     "CKT.C03.sum_markerFreq", "CKT.C03.layout_length", "CKT.C03.width_eq", "CKT.C03.layout_at_finalPos",
     "CKT.C03.layout_only_finalPos", "CKT.C03.basePos_succ", "CKT.C03.basePos_mono", "CKT.C03.transformGo_closed",
     "CKT.C03.posAfter_in_range", "CKT.C03.posAfter_injective", "CKT.C03.move_target_in_range",
+    # semantic half, for every pair of semantics obeying the four representation laws (C03Sem)
+    "CKT.C03Sem.transformGo_rep", "CKT.C03Sem.transform_preserves_expectations", "CKT.C03Sem.classical",
 ]
 RULE = ("circuits on 1-4 qubits (one or several named registers, optional classical registers) with 0-4 wire-cut markers in random "
         "interleavings, CutWire instances or name-only 'cut_wire' gates (thorough: every interleaving of the marker pattern across qubits for small shapes), both factories (Move / wrapped Move); "
         "non-trivial = at least one marker; distinct by payload")
 ASSUMPTIONS = ["QuantumCircuit.compose/add_bits/add_register are Qiskit's (modelled as index arithmetic over qubit identities)",
-               "reference semantics for the failing-input search: density-matrix simulation with Move = reset(dst); swap"]
+               "reference semantics for the failing-input search: density-matrix simulation with Move = reset(dst); swap",
+               "T03.3 (`transform_preserves_expectations`) is proved for every semantics obeying the four laws of `C03Sem.EmbSem` (initial state, "
+               "covariance of gates under qubit placement, Move = reset-and-swap relocates a logical qubit, expanded observables read the placed "
+               "qubits); that Qiskit's density-matrix semantics obeys them is standard and not proved in Lean (simulated on every case)"]
 
 
 def _mk(rng, nq, nmark, depth):
